@@ -227,40 +227,57 @@ def run(ctx: Ctx) -> None:
 
     def accept_of(es: list[Exit]) -> tuple:
         return c_and(*[c_not(e.cond) for e in es])
+    # a clause without any recognised guard, while some raising guard of
+    # the row loop could not be normalised, is not decided (the guard may
+    # be exactly that clause in a spelling outside the term language)
+    opaque_rows = [e for e in unmatched if is_opaque(e.cond)]
 
     def node_of(es: list[Exit]) -> ast.AST:
         return es[0].test or es[0].node if es else row_loop
 
+    for g_ in groups:
+        if not matched[g_] and opaque_rows:
+            e0 = opaque_rows[0]
+            ctx.ob("D4.1", vf, e0.test or e0.node, False,
+                   f"clause {g_}: cannot normalise the raising guard "
+                   f"`{ast.unparse(e0.test)[:80] if e0.test else '?'}` and "
+                   "no other guard checks this clause",
+                   construct=f"clause {g_}")
+    decided = {g_ for g_ in groups if matched[g_] or not opaque_rows}
     g = "F2 id in 1..n_different"
     t = groups[g]
-    _equiv(ctx, vf, "D4.1", g, accept_of(matched[g]), t,
-           ["id", "n_different", "0", "1"],
-           lambda m: m.rank(t[3]) <= m.rank(t[0]) <= m.rank(t[1]),
-           None, node_of(matched[g]))
+    if g in decided:
+        _equiv(ctx, vf, "D4.1", g, accept_of(matched[g]), t,
+               ["id", "n_different", "0", "1"],
+               lambda m: m.rank(t[3]) <= m.rank(t[0]) <= m.rank(t[1]),
+               None, node_of(matched[g]))
     g = "F3 bin in 1..n_items"
     t3 = groups[g]
-    _equiv(ctx, vf, "D4.1", g, accept_of(matched[g]), t3,
-           ["bin", "n_items", "0", "1"],
-           lambda m: m.rank(t3[3]) <= m.rank(t3[0]) <= m.rank(t3[1]),
-           None, node_of(matched[g]))
+    if g in decided:
+        _equiv(ctx, vf, "D4.1", g, accept_of(matched[g]), t3,
+               ["bin", "n_items", "0", "1"],
+               lambda m: m.rank(t3[3]) <= m.rank(t3[0]) <= m.rank(t3[1]),
+               None, node_of(matched[g]))
     g = "F4/F5 proper rectangle inside the bin"
     t5 = groups[g]
 
     def f45(m: ordenum.OrderModel) -> bool:
         L, B, Rr, T, Z, W, H = (m.rank(x) for x in t5)
         return L < Rr and B < T and Z <= L and Z <= B and Rr <= W and T <= H
-    _equiv(ctx, vf, "D4.1", g, accept_of(matched[g]), t5,
-           ["L", "B", "R", "T", "0", "W", "H"], f45, None,
-           node_of(matched[g]))
+    if g in decided:
+        _equiv(ctx, vf, "D4.1", g, accept_of(matched[g]), t5,
+               ["L", "B", "R", "T", "0", "W", "H"], f45, None,
+               node_of(matched[g]))
     g = "F6 item dimensions (plain or rotated)"
     t6 = groups[g]
 
     def f6(m: ordenum.OrderModel) -> bool:
         rw, rh, w, h = (m.rank(x) for x in t6)
         return (rw == w and rh == h) or (rw == h and rh == w)
-    _equiv(ctx, vf, "D4.1", g, accept_of(matched[g]), t6,
-           ["real_width", "real_height", "width", "height"], f6, None,
-           node_of(matched[g]), integer=False)
+    if g in decided:
+        _equiv(ctx, vf, "D4.1", g, accept_of(matched[g]), t6,
+               ["real_width", "real_height", "width", "height"], f6, None,
+               node_of(matched[g]), integer=False)
 
     _pair_clause(ctx, vf, ev, gw, R, row_loop, pair_loop, xname, inst_name,
                  is_full_range)
